@@ -553,12 +553,13 @@ def run(ctx):
             break
     fault_cases(ctx, rng, ctx.n(400, 6000), batch)
     zero_cases(ctx, rng, batch)
+    shape_cases(ctx, rng, batch)
     compare_batch(ctx, batch)
     ctx.assumption('A-yaml', True, '%d generated documents parsed to the generated trees' % ctx.stats['files_written'])
     reach_floor(ctx, ['form_H_bare', 'form_H_explicit', 'form_H_nd', 'form_S_bare', 'form_S_explicit', 'form_S_nd',
                       'form_Tref_bare', 'form_Tref_default', 'form_Tref_explicit', 'fault_missing_unit', 'fault_wrong_dim_explicit',
                       'fault_wrong_dim_default', 'fault_bad_string', 'inconsistent_data', 'model_err_inputData',
-                      'model_err_unitsParse', 'model_ok', 'relational_pairs', 'wrong_dim_loaded_nonplain', 'zero_cases'])
+                      'model_err_unitsParse', 'model_ok', 'relational_pairs', 'wrong_dim_loaded_nonplain', 'zero_cases', 'shape_cases'])
 
 
 def reach_floor(ctx, names):
@@ -567,6 +568,43 @@ def reach_floor(ctx, names):
     ctx.extra.setdefault('coverage', {})['reach'] = dict((n, ctx.stats.get(n, 0)) for n in names)
     if missing and not ctx.searching and ctx.time_left() > 100:
         raise common.MachineryError('generator no longer reaches: %s' % ', '.join(missing))
+
+
+def shape_cases(ctx, rng, batch):
+    """entries of the wrong shape, and null members: what the loaders reject and what they ignore"""
+    base = {'T_ref': Q(Fraction(300), 'K'), 'ND_H_ref': Fraction(3, 2)}
+    cases = [
+        ('entry_null', None, 'inputData'),
+        ('entry_number', Fraction(5), 'inputData'),
+        ('entry_list', [Fraction(1), Fraction(2)], 'inputData'),
+        ('tref_null', dict(base, T_ref=None), 'inputData'),
+        ('range_short', dict(base, range=[Q(Fraction(300), 'K')]), 'inputData'),
+        ('range_long', dict(base, range=[Q(Fraction(200), 'K'), Q(Fraction(300), 'K'), Q(Fraction(400), 'K')]), 'inputData'),
+        ('range_null', dict(base, range=None), 'inputData'),
+        ('range_number', dict(base, range=Fraction(300)), 'inputData'),
+        ('cp_number', dict(base, Cp_data=Fraction(5)), 'inputData'),
+        ('cp_row_short', dict(base, Cp_data=[[Q(Fraction(300), 'K')]]), 'inputData'),
+        ('ndcp_null', dict(base, ND_Cp_data=None), 'inputData'),
+        ('ndh_string', dict(base, ND_H_ref=Bad('abc')), 'inputData'),
+        ('nds_quantity_string', dict(base, ND_S_ref=Q(Fraction(2), 'J/mol/K')), 'inputData'),
+        ('h_null', {'T_ref': Q(Fraction(300), 'K'), 'H_ref': None, 'ND_S_ref': Fraction(2)}, 'ok'),
+        ('s_null', dict(base, S_ref=None), 'ok'),
+        ('cp_empty', dict(base, Cp_data=[], ND_Cp_data=[]), 'ok'),
+        ('both_h', dict(base, H_ref=Q(Fraction(1), 'kJ/mol')), 'ok'),       # the non-dimensional key wins
+        ('reversed_range', dict(base, range=[Q(Fraction(400), 'K'), Q(Fraction(200), 'K')]), 'inputData'),
+        ('tref_zero_with_h', {'T_ref': Q(Fraction(0), 'K'), 'H_ref': Q(Fraction(1), 'kJ/mol')}, 'inputData'),
+    ]
+    for tag, entry, want in cases:
+        name = 'C(H)4'
+        st, res, text = load_presentation(ctx, [name], {}, [entry])
+        inp = {'file': text, 'shape': tag, 'single': True}
+        ctx.case(text, None)
+        ctx.count('shape_' + tag)
+        ctx.count('shape_cases')
+        batch.append((request_of({}, entry), ('lib', st, res, name), inp))
+        got = res if st == 'err' else 'ok'
+        if got != want:
+            ctx.violation('an entry of the wrong shape is not handled as the loaders specify', inp, expected=want, observed=got)
 
 
 def zero_cases(ctx, rng, batch):
